@@ -370,7 +370,7 @@ impl Prop for C15 {
         };
         ctx.q();
         ctx.label(kind.name());
-        ctx.label(&format!("profile={:?}", c.recipe.profile).chars().take(20).collect::<String>());
+        ctx.label(&format!("profile={}", crate::util::variant_name(&c.recipe.profile)));
         if n >= 1 << 16 { fill(ctx, "entropy bound", h as f64, bound); }
         ensure!((h as f64) <= bound, "{}<{}>: retains {} bytes for n = {}, H0 = {:.3} bits/symbol, {} levels, max symbol {}; entropy bound {:.0} bytes",
             kind.name(), ty.name(), h, n, h0, levels, mx, bound);
